@@ -172,6 +172,10 @@ impl Prop for C16 {
         seen[usize::from(b.sg.start_state())] = true;
         while let Some(s) = todo.pop() {
             for (_, t) in b.sg.edges(s).iter() {
+                if usize::from(*t) >= nstates {
+                    o.fail("wrong", "C16/edge-target-out-of-range", format!("state {} has an edge to state {}, the graph has {nstates} states\n{}", usize::from(s), usize::from(*t), src()));
+                    return o;
+                }
                 if !seen[usize::from(*t)] {
                     seen[usize::from(*t)] = true;
                     todo.push(*t);
